@@ -29,7 +29,7 @@ import (
 	"verifharness/internal/sexp"
 )
 
-var composedKinds = []string{"plain", "args", "hostile", "renamed", "args-renamed", "mutated", "raw", "vars", "args-vars", "args-lexical", "sub", "sub", "sub-renamed", "sub-vars"}
+var composedKinds = []string{"plain", "args", "hostile", "renamed", "args-renamed", "mutated", "raw", "vars", "args-vars", "args-lexical", "sub", "sub", "sub-renamed", "sub-vars", "async", "args-async"}
 
 var quotedLiteral = regexp.MustCompile(`"[^"\n]*"`)
 
@@ -154,10 +154,23 @@ func composedCase(r *rng.R, kind string) sexp.Node {
 			world, initial = w.Sexp(), w.Value()
 		}
 	}
+	// kinds "async": about half of the resolvers answer through a promise, fulfilled by the idle
+	// handler under one of three schedules; the data must be the synchronous model's
+	var sched *exe.Scheduler
+	if strings.HasSuffix(kind, "async") {
+		sched = exe.NewScheduler(r)
+	}
 	o := guarded(func() outcome {
-		return judge(graphql.Execute(&graphql.Request{Context: context.Background(), Query: text, Schema: s,
-			OperationName: in.OpName, VariableValues: vars, InitialValue: initial}))
+		req := &graphql.Request{Context: context.Background(), Query: text, Schema: s,
+			OperationName: in.OpName, VariableValues: vars, InitialValue: initial}
+		if sched != nil {
+			exe.AsyncHook = sched.Hook
+			defer func() { exe.AsyncHook = nil }()
+			req.IdleHandler = sched.Idle
+		}
+		return judge(graphql.Execute(req))
 	})
+	exe.AsyncHook = nil
 	var observed sexp.Node
 	switch {
 	case o.resp == nil:
@@ -233,6 +246,7 @@ func composedCase(r *rng.R, kind string) sexp.Node {
 	return sexp.T("case", sexp.T("stream", sexp.Sym("composed")), sexp.T("api", sexp.Sym("execute")), sexp.T("kind", sexp.Sym(kind)),
 		subField,
 		sexp.T("cost", sexp.T("max", sexp.Int(max)), sexp.T("res", sexp.Int(res)), sexp.T("obs", costObs)),
+		sexp.T("async", sexp.Bool(sched != nil)),
 		sexp.T("query", sexp.Str(text)), sexp.T("op", sexp.Str(in.OpName)),
 		sexp.T("features", sexp.L()),
 		sexp.T("vschema", vld.SchemaSexp(s, in.ScalarKinds())),
